@@ -187,3 +187,47 @@ def pair(shape, hdd_bp: Real, hdd_beta: Real, hdd_k: Real, cdd_bp: Real, cdd_bet
                        finding=fid, unless=corner))
     check("C11.lipschitz.down", E1 - E2 <= L * (t2 - t1), finding=fid, unless=corner, given=facts)
     check("C11.lipschitz.up", E2 - E1 <= L * (t2 - t1), finding=fid, unless=corner, given=facts)
+
+
+# ----------------------------------------------------------------------------------------------------------------------------------
+# models imported from CalTRACK 2.0 parameter files: the recorded temperature range must leave every balance point of the 2.0 search grid (30..90 F)
+# strictly inside it -- a balance point ON the edge of the range switches the kernel to its single-regime rules (known finding C11-edge)
+
+DMP = repo("opendsm/eemeter/models/daily/parameters.py::DailyModelParameters")
+LEGACY_CASES = [{"mt": m} for m in ["intercept_only", "hdd_only", "cdd_only", "cdd_hdd"]]
+
+
+def tc_get(tc, name):
+    if isinstance(tc, dict):
+        return tc[name]
+    return getattr(tc, name)
+
+
+@harness("C11.legacy_import", prop="C11", cases=LEGACY_CASES, permissive=True)
+def legacy_import(mt, hbp: Real, cbp: Real, bh: Real, bc: Real, c: Real):
+    assume(And(30 <= hbp, hbp <= cbp, cbp <= 90, bh >= 0, bc >= 0))
+    mp = {"intercept": c}
+    if mt in ("hdd_only", "cdd_hdd"):
+        mp["heating_balance_point"] = hbp
+        mp["beta_hdd"] = bh
+    if mt in ("cdd_only", "cdd_hdd"):
+        mp["cooling_balance_point"] = cbp
+        mp["beta_cdd"] = bc
+    out = DMP.from_2_0_params({"model_type": mt, "model_params": mp})
+    sub = out.submodels["fw-su_sh_wi"]
+    tc = sub.temperature_constraints
+    lo = tc_get(tc, "T_min")
+    hi = tc_get(tc, "T_max")
+    lo_seg = tc_get(tc, "T_min_seg")
+    hi_seg = tc_get(tc, "T_max_seg")
+    check("C11.legacy_import.range_ordered", And(lo <= lo_seg, lo_seg <= hi_seg, hi_seg <= hi))
+    if mt in ("hdd_only", "cdd_hdd"):
+        check("C11.legacy_import.heating_bp_inside", And(lo < hbp, hbp < hi, lo_seg <= hbp, hbp <= hi_seg))
+    if mt in ("cdd_only", "cdd_hdd"):
+        check("C11.legacy_import.cooling_bp_inside", And(lo < cbp, cbp < hi, lo_seg <= cbp, cbp <= hi_seg))
+    co = sub.coefficients
+    # sign convention of the stored heating slope: negative for a heating-only model (usage falls as it gets warmer), as given for the two-sided one
+    if mt == "hdd_only":
+        check("C11.legacy_import.heating_slope", co.hdd_beta == 0 - bh)
+    if mt == "cdd_hdd":
+        check("C11.legacy_import.slopes", And(co.hdd_beta == bh, co.cdd_beta == bc))
